@@ -4,7 +4,7 @@
 From Coq Require Import ZArith Bool List Sorting.Sorted.
 Import ListNotations.
 From Verif Require Import Model.Val Gen.Src_Time Proofs.TimeP Model.Release
-  Proofs.ReleaseP1 Proofs.ReleaseP2 Proofs.ReleaseP3 Proofs.ReleaseP4 Proofs.ReleaseP5 Proofs.ReleaseP6 Proofs.ReleaseP7 Proofs.ReleaseP8 Proofs.ReleaseP9.
+  Proofs.ReleaseP1 Proofs.ReleaseP2 Proofs.ReleaseP3 Proofs.ReleaseP4 Proofs.ReleaseP5 Proofs.ReleaseP6 Proofs.ReleaseP7 Proofs.ReleaseP8 Proofs.ReleaseP9 Gen.Src_Release Proofs.ReleasePBridge.
 Open Scope Z_scope.
 
 (* ---- fixed: N releases one period apart from the start *)
@@ -183,3 +183,41 @@ Theorem C19_mon_iso_sound : forall jobs tasks, mon_iso jobs tasks = true ->
   length jobs = length tasks /\ (forall k cs, In (k, cs) jobs -> In (k, cs) tasks).
 Proof. exact mon_iso_sound. Qed.
 Print Assumptions C19_mon_iso_sound.
+
+(* ---- bridge: the comparisons / arithmetic translated from the source on this run (Gen/Src_Release.v) are the
+   model's: arguments of np.arange, draw counts and the microsecond seed of the gamma running time, the closed-loop
+   counts and guards, the clamp / rounding of EventTime.fuzz and the interval handed to uniform *)
+Theorem C19_bridge_release_times : forall p c zd fd, p_n p <> 0 ->
+  (p_type p = PERIODIC -> get_release_times p c zd fd =
+     let '(a, b, s) := src_periodic_args (us (p_start p)) (et_time (p_start p)) (us c) (et_time c)
+                                         (us (p_period p)) (et_time (p_period p)) (p_n p) in
+     bind (py_range a b s) (fun l => Ok (map us_time l))) /\
+  (p_type p = POISSON -> get_release_times p c zd fd =
+     bind (poisson_args (p_rate p)) (fun _ => bind (draw_array (src_poisson_size (p_n p)) zd) (fun ds =>
+     bind (poisson_acc (p_start p) ds) (fun rest => Ok (p_start p :: rest))))) /\
+  (p_type p = GAMMA -> get_release_times p c zd fd =
+     bind (gamma_args (p_coef p) (p_rate p)) (fun _ => bind (draw_array (src_gamma_size (p_n p)) fd) (fun ds =>
+     Ok (gamma_times (src_gamma_seed (us (p_start p)) (et_time (p_start p))) ds)))) /\
+  (p_type p = CLOSED_LOOP -> get_release_times p c zd fd =
+     Ok (repeat (p_start p) (Z.to_nat (src_cl_num (p_conc p) (p_n p))))) /\
+  (forall su sr cu cr pu pr n, src_fixed_args su sr cu cr pu pr n = (su, su + pu * n, n)).
+Proof.
+  intros p c zd fd Hn. split; [intros H; apply bridge_periodic; assumption|]. split; [intros H; apply bridge_poisson; assumption|].
+  split; [intros H; apply bridge_gamma; assumption|]. split; [intros H; apply bridge_closed_loop; assumption|]. exact bridge_fixed.
+Qed.
+Print Assumptions C19_bridge_release_times.
+Theorem C19_bridge_closed_loop : forall s g,
+  cl_notify s g =
+  if negb (zmem g (cl_all s)) then Err 1
+  else let live' := zremove g (cl_live s) in
+       if src_next_guard (cl_remaining s)
+       then let i := src_next_index (cl_index s) in
+            Ok (mkCL (src_next_remaining (cl_remaining s)) i (live' ++ [i]) (cl_all s ++ [i]) (cl_total s + 1), Some i)
+       else Ok (mkCL (cl_remaining s) (cl_index s) live' (cl_all s) (cl_total s), None).
+Proof. exact bridge_cl_notify. Qed.
+Print Assumptions C19_bridge_closed_loop.
+Theorem C19_bridge_fuzz : forall t u minb maxb minv maxv,
+  fuzz_time t u minb maxb = src_fuzz_result t (src_fuzz_clamp (NZ minb) (NZ maxb) (NF u)) /\
+  src_fuzz_interval t minv maxv = (t * Z.abs minv, t * Z.abs maxv).
+Proof. intros. split; [apply bridge_fuzz|apply bridge_fuzz_interval]. Qed.
+Print Assumptions C19_bridge_fuzz.
